@@ -58,6 +58,9 @@ func (r C15Rule) text() string {
 	case "werror":
 		// assigns the local, then fails with an ordinary error
 		fmt.Fprintf(&b, "  %s = uniq(@name)\n  FX(@name)\n  %s = %s / 0\n  E(@name)\n", x, x, x)
+	case "ranger":
+		// the only local of this rule is the key variable of a forRange
+		fmt.Fprintf(&b, "  forRange %s := three {\n    touch(@name, %s)\n  }\n  E(@name)\n", x, x)
 	case "sharedw":
 		fmt.Fprintf(&b, "  %s = uniq(@name)\n  shared.V = %s\n  wrote(@name, %s)\n  E(@name)\n", x, x, x)
 	case "sharedr":
@@ -75,7 +78,7 @@ func init() {
 		Gen: func(t *rapid.T) interface{} {
 			c := &C15Case{QuiesMs: 2}
 			n := uni(t, "nrules", 2, 7)
-			kinds := []string{"writer", "writer", "writer", "reader", "reader", "reader", "cond", "cond", "sharedw", "sharedr", "wpanic", "wpanic", "werror"}
+			kinds := []string{"writer", "writer", "writer", "reader", "reader", "reader", "cond", "cond", "sharedw", "sharedr", "wpanic", "wpanic", "werror", "ranger", "ranger"}
 			for i := 0; i < n; i++ {
 				c.Rules = append(c.Rules, C15Rule{Name: fmt.Sprintf("r%d", i), Sal: int64(uni(t, fmt.Sprintf("sal%d", i), -2, 4)),
 					Kind: kinds[uni(t, fmt.Sprintf("kind%d", i), 0, len(kinds)-1)], Local: []string{"x", "x", "y"}[uni(t, fmt.Sprintf("local%d", i), 0, 2)]})
@@ -134,6 +137,8 @@ func checkC15(ci interface{}, x *Ctx) {
 	apis["leak"] = func(n string, v interface{}) { env.log.Add("LEAK", n, 0) }
 	apis["wrote"] = func(n string, v int64) { env.log.Add("W", n, v) }
 	apis["see"] = func(n string, v int64) { env.log.Add("SEE", n, v) }
+	apis["touch"] = func(n string, v int64) { env.log.Add("TOUCH", n, v) }
+	apis["three"] = []int64{7, 8, 9}
 	flags := &c11Flags{}
 	shared := &c15Shared{}
 	var text strings.Builder
